@@ -107,6 +107,10 @@ pub enum DurKind {
     OneNano,
     Nanos(u64),
     Max,
+    /// (secs, nanos) of a timeout of centuries: at or just above a power of
+    /// two of nanoseconds / microseconds / milliseconds, where a narrowing
+    /// conversion wraps to (almost) nothing
+    Huge(u64, u32),
 }
 
 impl DurKind {
@@ -116,6 +120,7 @@ impl DurKind {
             DurKind::OneNano => Duration::from_nanos(1),
             DurKind::Nanos(n) => Duration::from_nanos(n),
             DurKind::Max => Duration::MAX,
+            DurKind::Huge(s, n) => Duration::new(s, n),
         }
     }
 }
@@ -1158,6 +1163,19 @@ impl C07 {
                     if *dur == DurKind::Zero {
                         out.faults[F_ZERO] += 1;
                     }
+                    if let DurKind::Huge(..) = dur {
+                        // centuries cannot pass inside one simulated diff
+                        out.count("timeouts_of_centuries", 1);
+                        if run.first_expired.is_some() || run.ops != none.ops {
+                            return fail(
+                                "c07.huge_timeout_means_never",
+                                format!(
+                                    "timeout {:?} ran out at probe {:?} after {} virtual ns (deadlines handed out: {:?})",
+                                    dur.dur(), run.first_expired, run.virt_ns, run.given
+                                ),
+                            );
+                        }
+                    }
                 }
                 if run.first_expired.is_none() {
                     if run.ops != none.ops {
@@ -1366,7 +1384,23 @@ impl Prop for C07 {
                 nanos: rng.below(10_000_000),
             },
             4 => Entry::CostTimeout {
-                dur: match rng.weighted(&[1, 1, 6, 1]) {
+                dur: match rng.weighted(&[1, 1, 6, 1, 2]) {
+                    4 => {
+                        // 2^64 ns, us, ms (+ a little), multiples, and the
+                        // largest values that still fit
+                        let (s, n) = *rng.pick(&[
+                            (18_446_744_073u64, 709_551_616u32),
+                            (18_446_744_073, 709_551_615),
+                            (36_893_488_147, 419_103_232),
+                            (18_446_744_073_709, 551_616_000),
+                            (18_446_744_073_709_551, 616_000_000),
+                            (4_294_967_296, 0),
+                            (4_294_967, 296_000_000),
+                            (9_223_372_036, 854_775_808),
+                        ]);
+                        let extra = rng.below(2000) as u32;
+                        DurKind::Huge(s, (n + extra).min(999_999_999))
+                    }
                     0 => DurKind::Zero,
                     1 => DurKind::OneNano,
                     2 => {
